@@ -340,6 +340,39 @@ def macho_ranges(rng, tier):
         out.append(("macho-ranges-%d" % rep, s))
     return out
 
+def macho_structural(rng, tier):
+    """valid __unwind_info, hostile surroundings (model-compared): text bytes that end inside a function (data shorter
+    than the stated range), text that starts after the first function, no text at all, missing __eh_frame for
+    DWARF-deferred entries; probed at every function boundary +-1 and inside, both frame kinds"""
+    import machotruth as mt
+    out = []
+    for rep in range(4 if tier == "quick" else 40):
+        arch = "x86" if rep % 2 == 0 else "a64"
+        s = Script(arch, "may" if rep % 4 < 2 else "must")
+        prog = mt.make_program(rng, arch, 6)
+        kind = rng.choice(["text-short", "text-late", "no-text", "plain"])
+        full = prog["text"]
+        if kind == "text-short":
+            prog = dict(prog, text=full[: rng.range(1, len(full) - 1)])
+        elif kind == "text-late":
+            cut = rng.range(1, min(len(full) - 1, 0x80))
+            prog = dict(prog, text=full[cut:], text_lo=prog["text_lo"] + cut)
+        base = 0x100000000 + 0x10000 * rng.below(256)
+        mt.module_macho(s, "M", prog, base, 0x100000000, rng, merge=rng.chance(1, 2), with_text=(kind != "no-text"))
+        s.add("new U"); s.add("add U M"); s.add("newcache C")
+        lo = 0x7000
+        s.mem("S", [(lo + 8 * i, rng.choice([0, lo + 8 * rng.below(128), base + 0x1000 + rng.below(0x300), rng.u64()])) for i in range(128)])
+        gran = 1 if arch == "x86" else 4
+        for f in prog["funcs"]:
+            for a in {f.start, f.start + gran, f.start + f.length - gran, f.start + f.length, f.start + gran * rng.below(max(1, f.length // gran))}:
+                for mode in ("ip", "ra"):
+                    addr = base + a + (1 if mode == "ra" else 0)
+                    regs = (s.regs_x86(addr, lo + 8 * rng.below(100), rng.choice([0, lo + 8 * rng.below(100), rng.u64()])) if arch == "x86"
+                            else s.regs_a64(M64, rng.choice([0, base + 0x1010, rng.u64()]), lo + 16 * rng.below(50), rng.choice([0, lo + 16 * rng.below(50)])))
+                    s.add("unwind U C %s %s %s S" % (mode, hx(addr), regs), tag="struct:macho-%s:%s:%s" % (kind, arch, mode))
+        out.append(("struct-macho-%s-%d" % (kind, rep), s))
+    return out
+
 def analysis_stream(rng, tier):
     """the instruction analysers (entered from Mach-O unwinding for first frames) on hostile text bytes: random
     bytes, shuffled and truncated prologue/epilogue instructions, lone prefixes at the end of the function, long
@@ -373,6 +406,7 @@ def analysis_stream(rng, tier):
                     for kind in ("pro", "epi", "both"):
                         s.add("analyze %s %s %d" % (kind, hexs(b), off), tag="analysis:%s:%s:%d" % (arch, kind, c))
             if rep == 0:
+                sl = Script(arch, "may"); sl.nomodel = True      # judged only: the model driver is slow on 64 KiB runs
                 # counters: more pushes / pops / stack adjustments than the accumulators can hold
                 if arch == "x86":
                     longs = [(bytes([0x5B]) * 65536 + bytes([0xC3]), 0), (bytes([0x41, 0x5C]) * 65536 + bytes([0xC3]), 0),
@@ -384,8 +418,8 @@ def analysis_stream(rng, tier):
                              (bytes.fromhex("ff0340d1") * 3 + bytes.fromhex("ffff7fd1") * 200, 812)]
                 for b, off in longs:
                     for kind in ("pro", "epi", "both"):
-                        s.add("analyze %s %s %d" % (kind, hexs(b), off), tag="analysis:%s:%s:counter" % (arch, kind))
-            s.nomodel = True
+                        sl.add("analyze %s %s %d" % (kind, hexs(b), off), tag="analysis:%s:%s:counter" % (arch, kind))
+                out.append(("analysis-counters-%s" % arch, sl))
             out.append(("analysis-%s-%d" % (arch, rep), s))
     return out
 
@@ -396,7 +430,7 @@ def generate(rng, tier):
     for w in range(4 if tier == "quick" else 40):
         nm, s = suites.dwarf_world(rng, "x86" if w % 2 == 0 else "a64", nmods=3, nf=3, nprobes=30, policy="may" if w % 4 < 2 else "must")
         out.append(("world-%s-%d" % (nm, w), s))
-    return out + bytes_stream(rng, tier) + macho_ranges(rng, tier) + analysis_stream(rng, tier)
+    return out + macho_structural(rng, tier) + bytes_stream(rng, tier) + macho_ranges(rng, tier) + analysis_stream(rng, tier)
 
 OWN = re.compile(r"panic own\b")
 def judge(script, impl):
